@@ -736,7 +736,9 @@ def do_check(prop, tier, only, jobs):
                 log("  %-34s %-12s checks=%-5s covers=%s/%s vars=%-8s solver=%ss wall=%ss (retry)" % (
                     h["name"], r["status"], r.get("checks", "-"), r.get("covers_sat", "-"), r.get("covers_total", "-"),
                     r.get("vars", "-"), r.get("solver_s", "-"), r.get("wall_s", "-")))
-        results.sort(key=lambda x: x[0]["name"])
+        # failures are replayed cheapest harness first: the replay budget then goes to the counterexamples that can be
+        # replayed quickly (an unsliced playback of a 2 M-variable harness takes half an hour and often ends inconclusive)
+        results.sort(key=lambda x: (0 if x[1].get("status") != "FAILURE" else 1, float(x[1].get("wall_s") or 0), x[0]["name"]))
         known = load_known()
         violations = 0
         inconclusive = 0
